@@ -778,6 +778,11 @@ def synzero(ctx):
             touched = [st for st in T.stmt_walk(body) if st[0] in ("assign", "assignop") and is_var(st[1] if st[0] == "assign" else st[2], acc)]
             okev = len(inits) == 1 and inits[0] < k_scale and not touched and not any(st[0] in ("continue", "break") for st in T.stmt_walk(body))
             detev["fused-accumulator"] = acc
+    if not okev:
+        # statement shape not recognised: SYNDROMES' fold decides the same question (cell i = c(alpha^(i+1)))
+        okx, detx = pee_exec(ctx)
+        if okx:
+            okev, detev = True, "decided by folding over linear forms: " + str(detx)
     obs.append(Ob(r, "pee-points", okev, "primitive_element_evaluation evaluates the word at alpha^1, alpha^2, ..: all coefficients (highest first) as running terms, scaled by 1, alpha, alpha^2, .. before each sum, every term summed", site=T.span_str(pe["span"]), detail=detev))
     # decode(): Ok only after every block returned Ok
     dsts, _ = T.fn_stmts(f, DEC)
